@@ -440,6 +440,9 @@ func (g *fgen) run() {
 		}
 		g.fact("true", t)
 	}
+	if fc.hasMod {
+		g.precise = g.preciseLocs(fc, g.clauseEnv(g.entry, nil, nil))
+	}
 	// cover: the precondition is satisfiable
 	g.curGuard = "true"
 	g.cover("pre", "true")
@@ -772,7 +775,7 @@ func (g *fgen) instr(in ssa.Instruction, st *state) {
 		switch u := x.X.Type().Underlying().(type) {
 		case *types.Array:
 			g.oblige("idx", g.siteLabel(x.Pos(), "index"), fmt.Sprintf("(and (<= 0 %s) (< %s %d))", i.t, i.t, u.Len()), x.Pos())
-			g.define(x, fmt.Sprintf("(select %s %s)", v.t, i.t))
+			g.define(x, g.arrGet(u, v.t, i.t))
 		case *types.Basic: // string
 			g.oblige("idx", g.siteLabel(x.Pos(), "index"), fmt.Sprintf("(and (<= 0 %s) (< %s (str.len %s)))", i.t, i.t, v.t), x.Pos())
 			r := g.define(x, fmt.Sprintf("(str.to_code (str.at %s %s))", v.t, i.t))
@@ -916,7 +919,7 @@ func (g *fgen) alloc(x *ssa.Alloc, st *state) {
 			k := g.leafKey(l, nil, a.Elem())
 			h := g.read(st, k)
 			nh := g.fresh("H_"+k, g.heapSort[k])
-			g.fact("true", fmt.Sprintf("(= %s (store %s %s %s))", nh, h, r, g.zero(et)))
+			g.fact("true", fmt.Sprintf("(= %s (store %s %s ((as const (Array Int %s)) %s)))", nh, h, r, g.sortOf(a.Elem()), g.zero(a.Elem())))
 			st.heap[k] = nh
 		}
 		return
@@ -977,6 +980,7 @@ func (g *fgen) indexAddr(x *ssa.IndexAddr) {
 			nl := *in
 			g.leafKey(&nl, nl.path, in.typ)
 			nl.sub = append(append([]string{}, in.sub...), i.t)
+			nl.subT = append(append([]*types.Array{}, in.subT...), a)
 			nl.typ = a.Elem()
 			g.locs[x] = &nl
 			return
@@ -1489,6 +1493,7 @@ func (g *fgen) ret(x *ssa.Return, st *state) {
 		env.vars[fc.results[i].name] = g.get(r)
 	}
 	g.assertGinvs(st, "ginv-ret", g.w.srcText(x.Pos(), 0), x.Pos())
+	g.frameObligations(st, x.Pos(), g.w.srcText(x.Pos(), 0))
 	for _, c := range fc.ensures {
 		t, err := env.safeBool(c)
 		if err != nil {
